@@ -63,6 +63,13 @@ func runC01(c *CaseCtx) {
 			}
 			run.CheckObs("after-reopen")
 		}
+		if c.Case%5 == 3 && i == ntx/2 {
+			// half way: one bucket is emptied, the database merged in this process, the same keys are put again; the
+			// reads that follow (and the rest of the history) run on that handle
+			if !drainMergeReput(run, g, run.Class) {
+				return
+			}
+		}
 	}
 	if run.Dead || c.Violated() {
 		return
